@@ -315,7 +315,10 @@ SameProg(x, y, scalar) ==
           Eq(LenOf(ECall(N_diff, <<L1(x), L1(y)>>)), EInt(0))>>
         \o (IF scalar THEN <<Eq(LenOf(EMap(<<EPair(x, EInt(0)), EPair(y, EInt(0))>>)), EInt(1)),
                              ECall(N_isset, <<EMap(<<EPair(x, EInt(0))>>), y>>)>> ELSE <<>>))
-SameNums == <<EInt(0), EInt(1), ENum(Half(1)), ENum(Half(5)), Neg(EInt(1)), Neg(ENum(Half(5))), EInt(10), EInt(9), EInt(100)>> \o BigPool
+\* ... and numbers a hair (2^-32 < 1e-9) beside an integer, with the integers on either side of them
+SameNear == <<ENum(Fin(3, 0, -1)), ENum(Fin(3, 0, 1)), ENum(Fin(8, 0, -2)), Neg(ENum(Fin(3, 0, -1))), Neg(ENum(Fin(2, 0, 1))),
+              EInt(2), EInt(3), EInt(7), EInt(8), Neg(EInt(2)), Neg(EInt(3))>>
+SameNums == <<EInt(0), EInt(1), ENum(Half(1)), ENum(Half(5)), Neg(EInt(1)), Neg(ENum(Half(5))), EInt(10), EInt(9), EInt(100)>> \o BigPool \o SameNear
 SameStrs == <<S(<<>>), S(<<97>>), S(<<97, 34, 98, 92>>), S(<<233>>), S(<<10>>), S(<<97, 98>>), S(<<49>>), Var(N_s)>>
 SameBools == <<EBool(TRUE), EBool(FALSE), Var(N_b)>>
 SameTimes == <<ETime(0), ETime(86400), Var(N_tm), ECall(N_strtotime, <<S(<<64, 56, 54, 52, 48, 48>>)>>)>>
